@@ -8,10 +8,10 @@ namespace Utv.C20
 
 /-! ### a natural-number measure that every effective step decreases -/
 
-def parseT (u : Nat) : Nat := 7 * u + 4
+def parseT (u : Nat) : Nat := 8 * u + 4
 def costU (u0 : Nat) : Nat := parseT u0 + 2
 def costF (N u0 : Nat) : Nat := 6 * N + 3 + costU u0
-def callCost (P N : Nat) (c : Call) : Nat := 6 + 10 * P + costF N c.length
+def callCost (P N : Nat) (c : Call) : Nat := 7 + 10 * P + costF N c.length
 
 def rest (P N : Nat) : List Call → Nat
   | [] => 0
@@ -27,9 +27,10 @@ def psi (W : World) (P : Nat) (t : Th) : Nat :=
   let U := costU u0
   let A := 1 + Lr + U
   let fld (off : Nat) := 6 * (N - t.fi - 1) + off + A + R
-  let prs (off : Nat) := 7 * (t.uses.length - 1) + off + 1 + R
+  let prs (off : Nat) := 8 * (t.uses.length - 1) + off + 1 + R
   match t.pc with
   | .start => 1 + rest P N t.calls
+  | .chkBase => 6 + 10 * P + F + R
   | .chk => 5 + 10 * P + F + R
   | .lock => 4 + 10 * P + Lr + F + R
   | .list => 3 + 10 * P + Lr + F + R
@@ -55,10 +56,11 @@ def psi (W : World) (P : Nat) (t : Th) : Nat :=
   | .unlock => U + R
   | .frfPos => parseT u0 + 1 + R
   | .frfRet => parseT u0 + R
-  | .pv => prs 7
-  | .tcIsev => prs 6
-  | .tcRdval => prs 5
-  | .nested => prs 4
+  | .pv => prs 8
+  | .tcIsev => prs 7
+  | .tcRdval => prs 6
+  | .nested => prs 5
+  | .nested2 => prs 4
   | .nestedPv => prs 3
   | .nestedErr => prs 2
   | .pvErr => prs 1
@@ -89,7 +91,7 @@ theorem psi_endCall (W : World) (P : Nat) (t : Th) (o : Outcome) : psi W P (endC
     simp only [List.isEmpty_cons, Bool.false_eq_true, if_false, psi, rest, callCost, List.headD_cons, List.tail_cons]
     omega
 
-theorem psi_parseNext (W : World) (P : Nat) (t : Th) : psi W P (parseNext t) ≤ 7 * t.uses.length + 1 + rz W P t := by
+theorem psi_parseNext (W : World) (P : Nat) (t : Th) : psi W P (parseNext t) ≤ 8 * t.uses.length + 1 + rz W P t := by
   unfold parseNext
   split
   · rename_i h
@@ -99,11 +101,11 @@ theorem psi_parseNext (W : World) (P : Nat) (t : Th) : psi W P (parseNext t) ≤
     simp only [psi, rz, h, List.length_cons]
     omega
 
-theorem psi_startParse (W : World) (P : Nat) (t : Th) : psi W P (startParse t) ≤ 7 * uz t + 1 + rz W P t := by
+theorem psi_startParse (W : World) (P : Nat) (t : Th) : psi W P (startParse t) ≤ 8 * uz t + 1 + rz W P t := by
   have := psi_parseNext W P { t with uses := t.calls.headD [] }
   simpa [startParse, uz, rz] using this
 
-theorem psi_nextUse (W : World) (P : Nat) (t : Th) : psi W P (nextUse t) ≤ 7 * (t.uses.length - 1) + 1 + rz W P t := by
+theorem psi_nextUse (W : World) (P : Nat) (t : Th) : psi W P (nextUse t) ≤ 8 * (t.uses.length - 1) + 1 + rz W P t := by
   have := psi_parseNext W P { t with uses := t.uses.tail }
   simpa [nextUse, rz] using this
 
@@ -186,7 +188,7 @@ theorem psi_raise (W : World) (P : Nat) (t : Th) (e : Outcome) :
 
 
 theorem psi_afterType (W : World) (P : Nat) (t : Th) (u : Use) (v : Val) (d : Bool) :
-    psi W P (afterType W t u v d) ≤ 7 * (t.uses.length - 1) + 5 + rz W P t := by
+    psi W P (afterType W t u v d) ≤ 8 * (t.uses.length - 1) + 6 + rz W P t := by
   have h1 := psi_nextUse W P t
   have h2 := psi_nextUse W P { t with wrongF := true }
   simp only [rz] at h1 h2
@@ -216,11 +218,20 @@ theorem step_psi (W : World) (k : Nat) (g : G) (t : Th) (ha : t.pc.dead = false)
     | nil => simp [psi, hpc, hc, rest]
     | cons c cs => simp only [psi, hpc, hc, rest, callCost, List.isEmpty_cons, List.headD_cons, List.tail_cons]; simp; omega
   | chk =>
-    simp only [stepTh, hpc]
+    simp only [stepTh, hpc, stepChk]
     split
     · have := psi_startParse W g.pending.length t
       simp only [psi, hpc, uz, rz, costF, costU, parseT] at this ⊢; omega
     · simp only [psi, hpc, Bool.false_eq_true, if_false, List.length_nil]; omega
+  | chkBase =>
+    simp only [stepTh, hpc, stepChk]
+    split
+    · split
+      · have := psi_startParse W g.pending.length t
+        simp only [psi, hpc, uz, rz, costF, costU, parseT] at this ⊢; omega
+      · simp only [psi, hpc, Bool.false_eq_true, if_false, List.length_nil]; omega
+    · simp only [psi, hpc]; omega
+  | nested2 => simp only [stepTh, hpc, psi]; omega
   | lock =>
     simp only [stepTh, hpc]
     cases hl : g.lock with
@@ -334,7 +345,7 @@ theorem step_psi (W : World) (k : Nat) (g : G) (t : Th) (ha : t.pc.dead = false)
 
 theorem step_pending_len (W : World) (k : Nat) (g : G) (t : Th) :
     (stepTh W false k g t).1.pending.length ≤ g.pending.length := by
-  cases hpc : t.pc <;> simp only [stepTh, hpc] <;> (repeat' split) <;>
+  cases hpc : t.pc <;> simp only [stepTh, stepChk, hpc] <;> (repeat' split) <;>
     first | exact Nat.le_refl _ | exact List.length_erase_le ..
 
 /-- thread `k` cannot take a step now: it waits for the lock -/
